@@ -135,7 +135,8 @@ class Snap:
         )
 
     def timeline_key(self) -> tuple:
-        return tuple(c.timeline_key() for c in self.channels.values())
+        # declaration order is not part of the timeline
+        return tuple(self.channels[n].timeline_key() for n in sorted(self.channels))
 
     def phase_key(self) -> tuple:
         out = []
